@@ -4,6 +4,8 @@ from .codewrite import *
 from .lifecycle import *
 from . import scans
 
+PER_TARGET = True      # every rule below looks at one target configuration at a time (check.py may fork one worker per target)
+USES_CONTROLS = True
 DECIDED = ("lockset/ownership premises that make `std::sync::Mutex` give exclusion for every schedule: R4.1 every construction of a public "
            "struct holding a MutexGuard takes that guard from lock() on one and the same static (no try_lock, no fresh mutex); R4.2 the lock "
            "wrapper returns, on every path and without diverging, the guard of self's mutex (Ok payload or PoisonError::into_inner of the same "
@@ -149,6 +151,7 @@ def run(ck, models, tier):
                 if is_std_lock(name):
                     wrappers.append(b["path"])
         ck.floor("R4.2", "lock-call-sites", len(wrappers), 1, tm.target)
+        lock_wrapper_cannot_panic(ck, tm, "R4.2")
         for wfn in sorted(set(wrappers)):
             vs = tm.try_variants(wfn)
             if vs is None:
